@@ -121,6 +121,7 @@ package syntax
 //@   ensures [C05,C01] ok-matcher: result1 == nil ==> segMatcher(result0)
 //@   ensures [C05,C01] ok-regexp: result1 == nil ==> segRegexp(result0)
 //@   ensures [C05] err: result1 != nil ==> result0 == nil
+//@   ensures [C01,C10] endpoint-exact: result1 == nil && (result0.Type == 1 || result0.Type == 3) ==> (result0.Endpoint <==> result0.Suffix == "")
 // What the properties need of a regexp rule and the code does not check (known finding, see known_findings.txt): the
 // rule is spliced into "(?P<name>" rule ")" tail without being compiled on its own, and '{' '}' inside it are taken
 // for token delimiters. Every functional clause about regexp segments is stated for self-contained rules only.
